@@ -4880,4 +4880,89 @@ theorem run_append (g : Bool) : ∀ (a b : List Op) (σ : State), run g σ (a ++
   | [], _, _ => rfl
   | x :: a, b, σ => by simp only [List.cons_append, run]; exact run_append g a b _
 
+/-- every handle of `v` lies in `[N, M)` -/
+def HB (N M : Nat) (v : V) : Prop := ∀ c, handleOf v = some c → N ≤ c ∧ c < M
+
+theorem HB.mono {N M M' : Nat} {v : V} (h : HB N M v) (hm : M ≤ M') : HB N M' v :=
+  fun c hc => ⟨(h c hc).1, Nat.lt_of_lt_of_le (h c hc).2 hm⟩
+
+/-- `clone()` appends blocks only, and the result and every appended block hold handles to appended blocks only -/
+def CloneFresh (f : Nat) : Prop :=
+  ∀ (N : Nat) (h h' : Heap) (v c : V), N ≤ h.length → cloneV f h v = .ok (h', c) →
+    ∃ y, h' = h ++ y ∧ HB N h'.length c ∧ ∀ ob ∈ y, ∀ w ∈ ovals ob, HB N h'.length w
+
+theorem cloneItems_fresh {f : Nat} (ih : CloneFresh f) (N : Nat) : ∀ (items : List (Bytes × V)) (h0 h1 : Heap)
+    (items' : List (Bytes × V)), N ≤ h0.length → mapHeapE (cloneV f) h0 items = .ok (h1, items') →
+    ∃ y, h1 = h0 ++ y ∧ (∀ kv ∈ items', HB N h1.length kv.2) ∧ ∀ ob ∈ y, ∀ w ∈ ovals ob, HB N h1.length w
+  | [], h0, h1, items', _, hm => by
+    simp only [mapHeapE, Except.ok.injEq, Prod.mk.injEq] at hm
+    obtain ⟨rfl, rfl⟩ := hm
+    exact ⟨[], by simp, by simp, by simp⟩
+  | (k, x) :: rest, h0, h1, items', hN, hm => by
+    simp only [mapHeapE] at hm
+    cases hcx : cloneV f h0 x with
+    | error e => simp [hcx] at hm
+    | ok r =>
+      obtain ⟨ha, x'⟩ := r
+      simp only [hcx] at hm
+      cases hr : mapHeapE (cloneV f) ha rest with
+      | error e => simp [hr] at hm
+      | ok r2 =>
+        obtain ⟨hb, rest'⟩ := r2
+        simp only [hr, Except.ok.injEq, Prod.mk.injEq] at hm
+        obtain ⟨rfl, rfl⟩ := hm
+        obtain ⟨ya, hya, hx', hfa⟩ := ih N h0 ha x x' hN hcx
+        have hNa : N ≤ ha.length := by rw [hya, List.length_append]; omega
+        obtain ⟨yb, hyb, hrest, hfb⟩ := cloneItems_fresh ih N rest ha hb rest' hNa hr
+        have hle : ha.length ≤ hb.length := by rw [hyb, List.length_append]; omega
+        refine ⟨ya ++ yb, by rw [hyb, hya, List.append_assoc], ?_, ?_⟩
+        · intro kv hkv
+          rcases List.mem_cons.mp hkv with rfl | hkv
+          · exact hx'.mono hle
+          · exact hrest kv hkv
+        · intro ob hob w hw
+          rcases List.mem_append.mp hob with hob | hob
+          · exact (hfa ob hob w hw).mono hle
+          · exact hfb ob hob w hw
+
+theorem cloneFresh : ∀ f, CloneFresh f
+  | 0 => by intro N h h' v c _ hc; simp [cloneV] at hc
+  | f + 1 => by
+    intro N h h' v c hN hcl
+    simp only [cloneV] at hcl
+    cases hh : handleOf v with
+    | none =>
+      simp only [hh, Except.ok.injEq, Prod.mk.injEq] at hcl
+      obtain ⟨rfl, rfl⟩ := hcl
+      exact ⟨[], by simp, (fun c hc => by rw [hh] at hc; cases hc), by simp⟩
+    | some id =>
+      simp only [hh] at hcl
+      cases hb : getB h id with
+      | error e => simp [hb] at hcl
+      | ok b =>
+        simp only [hb] at hcl
+        cases hm : mapHeapE (cloneV f) h b.items with
+        | error e => simp [hm] at hcl
+        | ok r =>
+          obtain ⟨h1, items'⟩ := r
+          simp only [hm, allocB, Except.ok.injEq, Prod.mk.injEq] at hcl
+          obtain ⟨rfl, rfl⟩ := hcl
+          obtain ⟨y, hy, hitems, hfy⟩ := cloneItems_fresh (cloneFresh f) N b.items h h1 items' hN hm
+          have hlen : (h1 ++ [some ({ isObj := b.isObj, items := items', cap := max items'.length 3, rc := 1 } : Block)]).length = h1.length + 1 := by simp
+          have hN1 : N ≤ h1.length := by rw [hy, List.length_append]; omega
+          refine ⟨y ++ [some ({ isObj := b.isObj, items := items', cap := max items'.length 3, rc := 1 } : Block)], by rw [hy, List.append_assoc], ?_, ?_⟩
+          · intro c hc
+            rw [handleOf_mkHandle] at hc
+            cases hc
+            rw [hlen]; omega
+          · intro ob hob w hw
+            rw [hlen]
+            rcases List.mem_append.mp hob with hob | hob
+            · exact (hfy ob hob w hw).mono (by omega)
+            · simp only [List.mem_singleton] at hob
+              subst hob
+              simp only [ovals, bvals, List.mem_map] at hw
+              obtain ⟨kv, hkv, rfl⟩ := hw
+              exact (hitems kv hkv).mono (by omega)
+
 end AslModel.Var
